@@ -103,6 +103,7 @@ loop 1
 func (tr *patriciaMerkleTrie) getRootHash() (h []byte, err error)
   trusted
   ensures  err == nil ==> h == rootHash(tr)
+  ensures  c02-empty-trie-reports-the-fixed-hash: old(tr.root) == nil ==> err == nil && h == EmptyTrieHash      // [C02]
   assigns  nothing
 
 // payload views of a `node` interface value: asLeaf(n) is the *leafNode inside n when typeIs(n, ptr_leafNode), etc.
@@ -255,6 +256,14 @@ func resolveIfCollapsed(n node, pos byte, db data.DBWriteCacher) (err error)
   // (C10, agent Q: two clauses added to this trusted contract; branchNode.resolveCollapsed writes children[pos] only)
   ensures  branch-child-loaded: err == nil && typeIs(n, ptr_branchNode) && pos < 17 ==> asBranch(n).children[pos] != nil || len(asBranch(n).EncodedChildren[pos]) == 0
   ensures  branch-other-children-kept: typeIs(n, ptr_branchNode) ==> (forall k :: 0 <= k && k < 17 && k != pos ==> asBranch(n).children[k] == old(asBranch(n).children[k]))
+  // added for C02/C03 (agent N): children already in memory are kept; a held child hash is resolved; an empty slot stays empty;
+  // ASSUMPTION about storage: a node loaded from the database is in canonical form (it was when it was written)
+  ensures  c02-children-in-memory-kept: forall b *branchNode, i int :: 0 <= i && i < 17 && old(b.children[i]) != nil ==> b.children[i] == old(b.children[i])
+  ensures  c02-ext-child-in-memory-kept: forall e *extensionNode :: old(e.child) != nil ==> e.child == old(e.child)
+  ensures  c02-branch-child-loaded: err == nil && typeIs(n, ptr_branchNode) && pos < 17 && len(asBranch(n).EncodedChildren[pos]) != 0 ==> asBranch(n).children[pos] != nil
+  ensures  c02-empty-slot-stays-empty: typeIs(n, ptr_branchNode) && pos < 17 && old(asBranch(n).children[pos]) == nil && len(asBranch(n).EncodedChildren[pos]) == 0 ==> asBranch(n).children[pos] == nil
+  ensures  c02-loaded-ext-child-canonical: err == nil && typeIs(n, ptr_extensionNode) && old(asExt(n).child) == nil ==> typeIs(asExt(n).child, ptr_branchNode) && shapeOK(asExt(n).child)
+  ensures  c02-loaded-branch-child-canonical: err == nil && typeIs(n, ptr_branchNode) && pos < 17 && old(asBranch(n).children[pos]) == nil && asBranch(n).children[pos] != nil ==> shapeOK(asBranch(n).children[pos])
   assigns  asExt(n).child, asBranch(n).children
 
 // leaf: the value iff the remaining key equals the leaf's key, else "absent" (nil, nil)
@@ -380,6 +389,285 @@ lemma surplus-exit-keeps-zero
   call _ = tsm.ExitPruningBufferingMode()
   call b = tsm.IsPruningBlocked()
   concl not-negative-not-blocked: tsm.pruningBlockingOps == 0 && !b
+@*/
+
+/*@
+// ---------------------------------------------------------------------------------------------------------------
+// C02 — the root hash depends only on the contents.
+// What a per-function check can carry: (a) LOCAL canonical form: every node that insert / delete / reduceNode return is
+// canonical one level deep (shapeOK) when the nodes they read are, and modified or new nodes are dirty with no cached
+// hash; (b) a node hash is Hasher.Compute of the encoding of the collapsed content; (c) the empty trie reports
+// EmptyTrieHash. The induction over the whole tree and over histories is NOT expressible (see specs/C02.json).
+//
+// canonical form, one level:
+//   leaf       non-empty value
+//   extension  non-empty key segment; the child is a branch (never a leaf or another extension) or only its hash is held
+//   branch     17 slots, at least two of them occupied (child in memory or child hash)
+spec fn occ(bn *branchNode, i int) bool = bn.children[i] != nil || len(bn.EncodedChildren[i]) != 0
+spec fn twoOcc(bn *branchNode) bool = exists i int, j int :: 0 <= i && i < 17 && 0 <= j && j < 17 && i != j && occ(bn, i) && occ(bn, j)
+spec fn leafOK(ln *leafNode) bool = ln != nil && ln.baseNode != nil && len(ln.Value) > 0
+spec fn extOK(en *extensionNode) bool = en != nil && en.baseNode != nil && len(en.Key) >= 1 && (en.child != nil ? typeIs(en.child, ptr_branchNode) && asBranch(en.child) != nil : len(en.EncodedChild) != 0)
+spec fn branchOK(bn *branchNode) bool = bn != nil && bn.baseNode != nil && len(bn.EncodedChildren) == 17 && allocated(bn.EncodedChildren) && twoOcc(bn)
+spec fn shapeOK(x node) bool = (typeIs(x, ptr_leafNode) && leafOK(asLeaf(x))) || (typeIs(x, ptr_extensionNode) && extOK(asExt(x))) || (typeIs(x, ptr_branchNode) && branchOK(asBranch(x)))
+// a node built by a mutator: dirty, no cached hash
+spec fn newBase(b *baseNode, m marshal.Marshalizer, h hashing.Hasher) bool = b != nil && b.dirty && b.hash == nil && b.marsh == m && b.hasher == h
+spec fn isNewLeaf(x node, k []byte, v []byte) bool = typeIs(x, ptr_leafNode) && asLeaf(x) != nil && asLeaf(x).Key == k && asLeaf(x).Value == v && asLeaf(x).baseNode != nil && asLeaf(x).baseNode.dirty && asLeaf(x).baseNode.hash == nil
+// hex keys at the same depth of the trie: suffixes of 16-terminated nibble strings; equal or differing before either ends
+spec fn hexSuffix(k []byte) bool = len(k) == 0 || (k[len(k)-1] == 16 && (forall j :: 0 <= j && j < len(k) - 1 ==> k[j] < 16))
+spec fn sameDepth(a []byte, b []byte) bool = hexSuffix(a) && hexSuffix(b) && (len(a) == 0 <==> len(b) == 0)
+
+func newLeafNode(key []byte, value []byte, marshalizer marshal.Marshalizer, hasher hashing.Hasher) (ln *leafNode, err error)
+  ensures  refused-iff-nil-collaborator: err == nil <==> !isNil(marshalizer) && !isNil(hasher)
+  ensures  built: err == nil ==> fresh(ln) && fresh(ln.baseNode) && ln.Key == key && ln.Value == value
+  ensures  dirty-without-hash: err == nil ==> newBase(ln.baseNode, marshalizer, hasher)
+  ensures  nil-on-error: err != nil ==> ln == nil
+  assigns  nothing
+
+func newExtensionNode(key []byte, child node, marshalizer marshal.Marshalizer, hasher hashing.Hasher) (en *extensionNode, err error)
+  ensures  refused-iff-nil-collaborator: err == nil <==> !isNil(marshalizer) && !isNil(hasher)
+  ensures  built: err == nil ==> fresh(en) && fresh(en.baseNode) && en.Key == key && en.child == child && en.EncodedChild == nil
+  ensures  dirty-without-hash: err == nil ==> newBase(en.baseNode, marshalizer, hasher)
+  ensures  nil-on-error: err != nil ==> en == nil
+  assigns  nothing
+
+func newBranchNode(marshalizer marshal.Marshalizer, hasher hashing.Hasher) (bn *branchNode, err error)
+  ensures  refused-iff-nil-collaborator: err == nil <==> !isNil(marshalizer) && !isNil(hasher)
+  ensures  built: err == nil ==> fresh(bn) && fresh(bn.baseNode) && fresh(bn.EncodedChildren) && len(bn.EncodedChildren) == 17
+  ensures  empty: err == nil ==> (forall i :: 0 <= i && i < 17 ==> bn.children[i] == nil && bn.EncodedChildren[i] == nil && len(bn.EncodedChildren[i]) == 0)
+  ensures  dirty-without-hash: err == nil ==> newBase(bn.baseNode, marshalizer, hasher)
+  ensures  nil-on-error: err != nil ==> bn == nil
+  assigns  nothing
+
+// ---- leaf
+
+// same key: the value is replaced in place and the cached hash dropped; an equal value changes nothing (r == nil)
+func (ln *leafNode) insertInSameLn(n *leafNode, oldHashes [][]byte) (r node, hashes [][]byte, err error)
+  ensures  unchanged-gets-a-new-empty-list: old(sameBytes(ln.Value, n.Value)) ==> fresh(hashes)
+  requires leafOK(ln) && n != nil
+  ensures  never-fails: err == nil
+  ensures  equal-value-is-no-change: old(sameBytes(ln.Value, n.Value)) ==> r == nil && ln.Value == old(ln.Value) && ln.baseNode.hash == old(ln.baseNode.hash) && ln.baseNode.dirty == old(ln.baseNode.dirty)
+  ensures  new-value-in-place: !old(sameBytes(ln.Value, n.Value)) ==> r == iface(ln) && ln.Value == n.Value && ln.baseNode.dirty && ln.baseNode.hash == nil && hashes == oldHashes
+  assigns  ln.CollapsedLn, ln.baseNode.dirty, ln.baseNode.hash
+
+// different keys: a new branch with the two leaves, each keyed by what follows the first differing nibble
+func (ln *leafNode) insertInNewBn(n *leafNode, keyMatchLen int) (r node, err error)
+  requires leafOK(ln) && n != nil
+  requires first-difference: 0 <= keyMatchLen && keyMatchLen < len(ln.Key) && keyMatchLen < len(n.Key) && ln.Key[keyMatchLen] != n.Key[keyMatchLen]
+  ensures  branch: err == nil ==> typeIs(r, ptr_branchNode) && fresh(asBranch(r)) && newBase(asBranch(r).baseNode, ln.baseNode.marsh, ln.baseNode.hasher) && len(asBranch(r).EncodedChildren) == 17 && allocated(asBranch(r).EncodedChildren) && fresh(asBranch(r).EncodedChildren)
+  ensures  old-leaf-moved: err == nil ==> isNewLeaf(asBranch(r).children[ln.Key[keyMatchLen]], ln.Key[keyMatchLen+1:], ln.Value)
+  ensures  new-leaf-placed: err == nil ==> isNewLeaf(asBranch(r).children[n.Key[keyMatchLen]], n.Key[keyMatchLen+1:], n.Value)
+  ensures  nothing-else: err == nil ==> (forall i :: 0 <= i && i < 17 ==> len(asBranch(r).EncodedChildren[i]) == 0 && (i != ln.Key[keyMatchLen] && i != n.Key[keyMatchLen] ==> asBranch(r).children[i] == nil))
+  ensures  bad-nibble-refused: ln.Key[keyMatchLen] >= 17 || n.Key[keyMatchLen] >= 17 ==> err != nil
+  assigns  nothing
+
+func (ln *leafNode) insert(n *leafNode, db data.DBWriteCacher) (r node, hashes [][]byte, err error)
+  ensures  hash-list-is-new: err == nil ==> fresh(hashes) && (typeIs(r, ptr_branchNode) ==> base(hashes) != base(asBranch(r).EncodedChildren))
+  requires receiver-canonical: leafOK(ln)
+  requires new-leaf: n != nil && n != ln && len(n.Value) > 0 && n.baseNode != nil
+  requires same-depth-hex-keys: sameDepth(ln.Key, n.Key)
+  ensures  result-canonical: err == nil && r != nil ==> shapeOK(r)
+  ensures  same-key-updates-in-place: err == nil && old(sameBytes(n.Key, ln.Key)) ==> (r == nil || (r == iface(ln) && ln.Value == n.Value && ln.baseNode.dirty && ln.baseNode.hash == nil))
+  ensures  other-key-builds-new-nodes: err == nil && !old(sameBytes(n.Key, ln.Key)) ==> r != nil && r != iface(ln) && ln.Value == old(ln.Value) && (prefixLen(n.Key, ln.Key) == 0 ? typeIs(r, ptr_branchNode) : typeIs(r, ptr_extensionNode) && asExt(r).Key == ln.Key[:prefixLen(n.Key, ln.Key)] && asExt(r).baseNode.dirty && asExt(r).baseNode.hash == nil)
+  assigns  ln.CollapsedLn, ln.baseNode.dirty, ln.baseNode.hash
+
+// ---- interface level: one insert step: receiver canonical (one level) => result canonical (one level). This contract is
+// ASSUMED at the recursive interface calls; the three implementations are verified against their own contracts, which
+// state the same clauses (the induction over the tree is outside the engine). The quantified
+// clauses are the frame every implementation keeps for ALL nodes of the heap: key segments, collaborators and the slot
+// layout never change and an occupied branch slot is never emptied by an insert.
+func (nd trie.node) insert(n *leafNode, db data.DBWriteCacher) (r node, hashes [][]byte, err error)
+  requires new-leaf: n != nil && len(n.Value) > 0 && n.baseNode != nil
+  ensures  result-canonical: err == nil && !isNil(r) && old(shapeOK(nd)) ==> shapeOK(r)
+  ensures  branch-returns-itself: typeIs(nd, ptr_branchNode) && err == nil && !isNil(r) ==> r == nd
+  ensures  hash-list-is-new: err == nil ==> fresh(hashes) && (typeIs(r, ptr_branchNode) ==> base(hashes) != base(asBranch(r).EncodedChildren))
+  ensures  ext-segments-kept: forall e *extensionNode :: !fresh(e) ==> e.Key == old(e.Key) && e.baseNode == old(e.baseNode)
+  ensures  collaborators-kept: forall b *baseNode :: !fresh(b) ==> b.marsh == old(b.marsh) && b.hasher == old(b.hasher)
+  ensures  slots-kept: forall b *branchNode :: !fresh(b) ==> b.EncodedChildren == old(b.EncodedChildren) && b.baseNode == old(b.baseNode)
+  ensures  occupied-stays-occupied: forall b *branchNode, i int :: !fresh(b) && 0 <= i && i < 17 && old(occ(b, i)) ==> occ(b, i)
+
+// ---- extension
+
+spec fn splitBranch(r node) *branchNode = typeIs(r, ptr_branchNode) ? asBranch(r) : asBranch(asExt(r).child)
+
+// the key leaves the segment at keyMatchLen: a new branch holds the rest of the extension (or its child directly when
+// nothing of the segment is left: no empty-key extension is ever built) and the new leaf; the common part, when not
+// empty, becomes a new extension above the branch
+func (en *extensionNode) insertInNewBn(n *leafNode, keyMatchLen int) (r node, hashes [][]byte, err error)
+  ensures  hash-list-is-new: err == nil ==> fresh(hashes) && (typeIs(r, ptr_branchNode) ==> base(hashes) != base(asBranch(r).EncodedChildren))
+  requires receiver-canonical: extOK(en) && en.child != nil
+  requires new-leaf: n != nil && len(n.Value) > 0 && n.baseNode != nil
+  requires first-difference: 0 <= keyMatchLen && keyMatchLen < len(en.Key) && keyMatchLen < len(n.Key) && en.Key[keyMatchLen] != n.Key[keyMatchLen]
+  ensures  result-canonical: err == nil ==> shapeOK(r)
+  ensures  top: err == nil ==> (keyMatchLen == 0 ? typeIs(r, ptr_branchNode) : typeIs(r, ptr_extensionNode) && fresh(asExt(r)) && asExt(r).Key == en.Key[:keyMatchLen] && asExt(r).baseNode.dirty && asExt(r).baseNode.hash == nil && typeIs(asExt(r).child, ptr_branchNode))
+  ensures  branch-is-new: err == nil ==> fresh(splitBranch(r)) && splitBranch(r).baseNode.dirty && splitBranch(r).baseNode.hash == nil
+  ensures  new-leaf-placed: err == nil ==> splitBranch(r).children[old(n.Key[keyMatchLen])] == iface(n) && n.Key == old(n.Key)[keyMatchLen+1:] && n.Value == old(n.Value)
+  ensures  rest-of-segment: err == nil && len(en.Key) == keyMatchLen + 1 ==> splitBranch(r).children[en.Key[keyMatchLen]] == en.child
+  ensures  rest-of-segment-as-extension: err == nil && len(en.Key) > keyMatchLen + 1 ==> typeIs(splitBranch(r).children[en.Key[keyMatchLen]], ptr_extensionNode) && asExt(splitBranch(r).children[en.Key[keyMatchLen]]).Key == en.Key[keyMatchLen+1:] && asExt(splitBranch(r).children[en.Key[keyMatchLen]]).child == en.child && extOK(asExt(splitBranch(r).children[en.Key[keyMatchLen]]))
+  ensures  nothing-else: err == nil ==> (forall i :: 0 <= i && i < 17 ==> len(splitBranch(r).EncodedChildren[i]) == 0 && (i != en.Key[keyMatchLen] && i != old(n.Key[keyMatchLen]) ==> splitBranch(r).children[i] == nil))
+  ensures  bad-nibble-refused: en.Key[keyMatchLen] >= 17 || old(n.Key[keyMatchLen]) >= 17 ==> err != nil
+  assigns  n.CollapsedLn
+
+// the key runs through the whole segment: the step is the child's step; a changed child gets a NEW extension with the
+// same segment (dirty, no hash); an unchanged child (nil result) leaves everything as it is
+func (en *extensionNode) insertInSameEn(n *leafNode, keyMatchLen int, db data.DBWriteCacher) (r node, hashes [][]byte, err error)
+  ensures  hash-list-is-new: err == nil ==> fresh(hashes) && (typeIs(r, ptr_branchNode) ==> base(hashes) != base(asBranch(r).EncodedChildren))
+  requires receiver-canonical: extOK(en) && en.child != nil
+  requires new-leaf: n != nil && len(n.Value) > 0 && n.baseNode != nil
+  requires whole-segment-matched: keyMatchLen == len(en.Key) && keyMatchLen <= len(n.Key)
+  ensures  result-canonical: err == nil && !isNil(r) ==> shapeOK(r)
+  ensures  new-extension-same-segment: err == nil && !isNil(r) ==> typeIs(r, ptr_extensionNode) && fresh(asExt(r)) && asExt(r).Key == old(en.Key) && asExt(r).child == old(en.child) && asExt(r).baseNode.dirty && asExt(r).baseNode.hash == nil
+
+func (en *extensionNode) insert(n *leafNode, db data.DBWriteCacher) (r node, hashes [][]byte, err error)
+  ensures  hash-list-is-new: err == nil ==> fresh(hashes) && (typeIs(r, ptr_branchNode) ==> base(hashes) != base(asBranch(r).EncodedChildren))
+  requires receiver-canonical: extOK(en)
+  requires new-leaf: n != nil && len(n.Value) > 0 && n.baseNode != nil
+  requires key-leaves-or-passes-segment: prefixLen(n.Key, en.Key) < len(n.Key) || prefixLen(n.Key, en.Key) == len(en.Key)   // follows from the terminator: lemma terminated-key-leaves-segment
+  ensures  result-canonical: err == nil && !isNil(r) ==> shapeOK(r)
+  ensures  never-the-receiver: err == nil && !isNil(r) ==> r != iface(en)
+  ensures  inside-segment-keeps-it: err == nil && !isNil(r) && old(isPrefix(en.Key, n.Key)) ==> typeIs(r, ptr_extensionNode) && asExt(r).Key == old(en.Key)
+
+// ---- branch
+
+func (bn *branchNode) modifyNodeAfterInsert(modifiedHashes [][]byte, childPos byte, newNode node) (r [][]byte)
+  requires bn.baseNode != nil && childPos < 17
+  ensures  child-replaced: bn.children[childPos] == newNode && (forall i :: 0 <= i && i < 17 && i != childPos ==> bn.children[i] == old(bn.children[i]))
+  ensures  dirty-without-hash: bn.baseNode.dirty && bn.baseNode.hash == nil
+  ensures  clean-hash-recorded: old(bn.baseNode.dirty) ? r == modifiedHashes : len(r) == len(modifiedHashes) + 1 && r[len(modifiedHashes)] == old(bn.baseNode.hash)
+  ensures  same-or-new-array: base(r) == base(modifiedHashes) || fresh(r)
+  assigns  bn.children, bn.baseNode.dirty, bn.baseNode.hash, elems(modifiedHashes)
+
+func (bn *branchNode) insertOnNilChild(n *leafNode, childPos byte) (r node, hashes [][]byte, err error)
+  ensures  hash-list-is-new: err == nil ==> fresh(hashes) && (typeIs(r, ptr_branchNode) ==> base(hashes) != base(asBranch(r).EncodedChildren))
+  requires receiver-canonical: branchOK(bn)
+  requires new-leaf: n != nil && len(n.Value) > 0 && childPos < 17
+  ensures  same-branch: err == nil ==> r == iface(bn) && branchOK(bn) && bn.baseNode.dirty && bn.baseNode.hash == nil
+  ensures  leaf-placed: err == nil ==> isNewLeaf(bn.children[childPos], n.Key, n.Value) && (forall i :: 0 <= i && i < 17 && i != childPos ==> bn.children[i] == old(bn.children[i]))
+  assigns  bn.children, bn.baseNode.dirty, bn.baseNode.hash
+
+func (bn *branchNode) insertOnExistingChild(n *leafNode, childPos byte, db data.DBWriteCacher) (r node, hashes [][]byte, err error)
+  ensures  hash-list-is-new: err == nil ==> fresh(hashes) && (typeIs(r, ptr_branchNode) ==> base(hashes) != base(asBranch(r).EncodedChildren))
+  requires receiver-canonical: branchOK(bn)
+  requires child-in-memory: childPos < 17 && bn.children[childPos] != nil
+  requires new-leaf: n != nil && len(n.Value) > 0 && n.baseNode != nil
+  ensures  same-branch: err == nil && !isNil(r) ==> r == iface(bn) && branchOK(bn) && bn.baseNode.dirty && bn.baseNode.hash == nil
+  ensures  child-canonical: err == nil && !isNil(r) && old(shapeOK(bn.children[childPos])) ==> shapeOK(bn.children[childPos])
+
+func (bn *branchNode) insert(n *leafNode, db data.DBWriteCacher) (r node, hashes [][]byte, err error)
+  ensures  hash-list-is-new: err == nil ==> fresh(hashes) && (typeIs(r, ptr_branchNode) ==> base(hashes) != base(asBranch(r).EncodedChildren))
+  requires receiver-canonical: branchOK(bn)
+  requires new-leaf: n != nil && len(n.Value) > 0 && n.baseNode != nil
+  ensures  same-branch: err == nil && !isNil(r) ==> r == iface(bn) && branchOK(bn) && bn.baseNode.dirty && bn.baseNode.hash == nil
+  ensures  bad-key-refused: old(len(n.Key) == 0 || n.Key[0] >= 17) ==> err != nil
+
+// ---- delete / reduce: the merging rules that keep the form canonical
+
+// number of occupied slots (0, 1, or "at least two") and the last occupied one
+func getChildPosition(n *branchNode) (nrOfChildren int, childPos int)
+  requires n != nil && inv(n)
+  ensures  none: nrOfChildren == 0 <==> (forall i :: 0 <= i && i < 17 ==> !occ(n, i))
+  ensures  single: nrOfChildren == 1 ==> 0 <= childPos && childPos < 17 && occ(n, childPos) && (forall i :: 0 <= i && i < 17 && i != childPos ==> !occ(n, i))
+  ensures  several: nrOfChildren >= 2 ==> twoOcc(n)
+  ensures  count-range: 0 <= nrOfChildren && nrOfChildren <= 17
+  assigns  nothing
+
+loop 1
+  invariant index: 0 - 1 <= rangeindex && rangeindex < 17 && 0 <= nrOfChildren && nrOfChildren <= rangeindex + 1
+  invariant none-so-far: nrOfChildren == 0 <==> (forall i :: 0 <= i && i <= rangeindex ==> !occ(n, i))
+  invariant last-one: nrOfChildren >= 1 ==> 0 <= childPos && childPos <= rangeindex && occ(n, childPos)
+  invariant single-so-far: nrOfChildren == 1 ==> (forall i :: 0 <= i && i <= rangeindex && i != childPos ==> !occ(n, i))
+  invariant several-so-far: nrOfChildren >= 2 ==> (exists i int :: 0 <= i && i < childPos && occ(n, i))
+
+// a node that became the only child of a branch is pulled up one level: the slot number is prepended to the key of a
+// leaf or extension (same value / same child); a branch gets a one-nibble extension above it
+func (ln *leafNode) reduceNode(pos int) (r node, newHash bool, err error)
+  requires ln.baseNode != nil
+  ensures  leaf-with-longer-key: err == nil ==> typeIs(r, ptr_leafNode) && fresh(asLeaf(r)) && asLeaf(r).Value == ln.Value && len(asLeaf(r).Key) == len(ln.Key) + 1 && asLeaf(r).Key[0] == byte(pos) && (forall k :: 0 <= k && k < len(ln.Key) ==> asLeaf(r).Key[k+1] == ln.Key[k])
+  ensures  dirty-without-hash: err == nil ==> asLeaf(r).baseNode != nil && asLeaf(r).baseNode.dirty && asLeaf(r).baseNode.hash == nil && newHash
+  assigns  nothing
+
+func (en *extensionNode) reduceNode(pos int) (r node, newHash bool, err error)
+  requires en.baseNode != nil
+  ensures  extension-with-longer-key: err == nil ==> typeIs(r, ptr_extensionNode) && fresh(asExt(r)) && asExt(r).child == en.child && len(asExt(r).Key) == len(en.Key) + 1 && asExt(r).Key[0] == byte(pos) && (forall k :: 0 <= k && k < len(en.Key) ==> asExt(r).Key[k+1] == en.Key[k])
+  ensures  dirty-without-hash: err == nil ==> asExt(r).baseNode != nil && asExt(r).baseNode.dirty && asExt(r).baseNode.hash == nil && newHash
+  ensures  canonical-when-child-in-memory: err == nil && en.child != nil && typeIs(en.child, ptr_branchNode) && asBranch(en.child) != nil ==> shapeOK(r)
+  assigns  nothing
+
+func (bn *branchNode) reduceNode(pos int) (r node, newHash bool, err error)
+  requires bn.baseNode != nil
+  ensures  one-nibble-extension: err == nil ==> typeIs(r, ptr_extensionNode) && fresh(asExt(r)) && asExt(r).child == iface(bn) && len(asExt(r).Key) == 1 && asExt(r).Key[0] == byte(pos) && shapeOK(r)
+  ensures  dirty-without-hash: err == nil ==> asExt(r).baseNode.dirty && asExt(r).baseNode.hash == nil && !newHash
+  assigns  nothing
+
+func (nd trie.node) reduceNode(pos int) (r node, newHash bool, err error)
+  ensures  never-a-branch: err == nil ==> r != nil && !typeIs(r, ptr_branchNode)
+  ensures  leaf-stays-leaf: err == nil && typeIs(nd, ptr_leafNode) ==> typeIs(r, ptr_leafNode) && asLeaf(r).Value == asLeaf(nd).Value && asLeaf(r).baseNode != nil && asLeaf(r) != nil
+  ensures  extension-keeps-child: err == nil && typeIs(nd, ptr_extensionNode) ==> typeIs(r, ptr_extensionNode) && asExt(r).child == asExt(nd).child && len(asExt(r).Key) == len(asExt(nd).Key) + 1 && asExt(r).baseNode != nil && asExt(r) != nil
+  ensures  branch-gets-extension: err == nil && typeIs(nd, ptr_branchNode) ==> typeIs(r, ptr_extensionNode) && asExt(r).child == nd && len(asExt(r).Key) == 1 && asExt(r).baseNode != nil && asExt(r) != nil
+  assigns  nothing
+
+func (ln *leafNode) delete(key []byte, db data.DBWriteCacher) (dirty bool, r node, hashes [][]byte, err error)
+  ensures  hash-list-is-new: err == nil ==> fresh(hashes)
+  requires ln.baseNode != nil
+  ensures  never-fails: err == nil
+  ensures  removed-iff-key-equal: dirty <==> sameBytes(key, ln.Key)
+  ensures  removed-is-nil-kept-is-itself: dirty ? r == nil : r == iface(ln)
+  assigns  nothing
+
+// interface level of one delete step (frame clauses as for insert, but a delete may empty slots below the receiver)
+func (nd trie.node) delete(key []byte, db data.DBWriteCacher) (dirty bool, r node, hashes [][]byte, err error)
+  ensures  unchanged-is-the-receiver: err == nil && !dirty ==> r == nd
+  ensures  only-a-leaf-vanishes: err == nil && dirty && r == nil ==> typeIs(nd, ptr_leafNode)
+  ensures  result-canonical: err == nil && dirty && r != nil && old(shapeOK(nd)) ==> shapeOK(r)
+  ensures  new-extension-has-its-child-in-memory: err == nil && dirty && typeIs(r, ptr_extensionNode) ==> asExt(r).child != nil
+  ensures  slots-kept: forall b *branchNode :: !fresh(b) ==> b.EncodedChildren == old(b.EncodedChildren) && b.baseNode == old(b.baseNode)
+  ensures  ext-segments-kept: forall e *extensionNode :: !fresh(e) ==> e.Key == old(e.Key) && e.baseNode == old(e.baseNode)
+  ensures  collaborators-kept: forall b *baseNode :: !fresh(b) ==> b.marsh == old(b.marsh) && b.hasher == old(b.hasher)
+  ensures  hash-list-is-new: err == nil ==> fresh(hashes)
+
+// extension: an absent key changes nothing; otherwise the child's result is merged so that an extension never sits above a
+// leaf or another extension: leaf -> leaf with the segment prepended; extension -> one extension with both segments;
+// branch -> new extension with the same segment
+func (en *extensionNode) delete(key []byte, db data.DBWriteCacher) (dirty bool, r node, hashes [][]byte, err error)
+  ensures  hash-list-is-new: err == nil ==> fresh(hashes)
+  requires receiver-canonical: extOK(en)
+  requires child-canonical: en.child != nil ==> shapeOK(en.child)
+  ensures  key-outside-segment-changes-nothing: err == nil && old(len(key) > 0 && !isPrefix(en.Key, key)) ==> !dirty && r == iface(en)
+  ensures  unchanged-is-the-receiver: err == nil && !dirty ==> r == iface(en)
+  ensures  merged: err == nil && dirty ==> r != nil && (typeIs(r, ptr_leafNode) ? fresh(asLeaf(r)) : typeIs(r, ptr_extensionNode) && fresh(asExt(r)))
+  ensures  no-extension-above-leaf-or-extension: err == nil && dirty && typeIs(r, ptr_extensionNode) ==> len(asExt(r).Key) >= len(old(en.Key)) && asExt(r).baseNode.dirty && asExt(r).baseNode.hash == nil && asExt(r).child != nil && typeIs(asExt(r).child, ptr_branchNode)
+  ensures  result-canonical: err == nil && dirty ==> shapeOK(r)
+  ensures  empty-key-refused: len(key) == 0 ==> err != nil
+
+func (nd trie.node) isDirty() (r bool)
+  assigns nothing
+
+// the cached hash of a node, whatever its kind
+spec fn hashField(x node) []byte = typeIs(x, ptr_leafNode) ? asLeaf(x).baseNode.hash : (typeIs(x, ptr_extensionNode) ? asExt(x).baseNode.hash : asBranch(x).baseNode.hash)
+
+func (nd trie.node) getHash() (r []byte)
+  ensures r == hashField(nd)
+  assigns nothing
+
+// branch: after the child's step the occupied slots are counted: exactly one left => the branch is dropped and its only
+// child pulled up (reduceNode); otherwise the branch stays, dirty and without cached hash. A branch with exactly one
+// occupied slot is never returned.
+func (bn *branchNode) delete(key []byte, db data.DBWriteCacher) (dirty bool, r node, hashes [][]byte, err error)
+  ensures  hash-list-is-new: err == nil ==> fresh(hashes)
+  requires inv(bn) && bn.baseNode != nil
+  ensures  unchanged-is-the-receiver: err == nil && !dirty ==> r == iface(bn)
+  ensures  never-a-single-child-branch: err == nil && dirty && r == iface(bn) ==> bn.baseNode.dirty && bn.baseNode.hash == nil && (twoOcc(bn) || (forall i :: 0 <= i && i < 17 ==> !occ(bn, i)))
+  ensures  single-child-is-pulled-up: err == nil && dirty && r != iface(bn) ==> r != nil && !typeIs(r, ptr_branchNode)
+  ensures  pulled-up-extension-has-its-child-in-memory: err == nil && dirty && typeIs(r, ptr_extensionNode) ==> asExt(r).child != nil
+  ensures  pulled-up-canonical: err == nil && dirty && r != iface(bn) && (forall i :: 0 <= i && i < 17 && bn.children[i] != nil ==> shapeOK(bn.children[i])) ==> shapeOK(r)
+  ensures  bad-key-refused: len(key) == 0 || old(key[0]) >= 17 ==> err != nil
+
+// the terminator keeps an inserted key from ending inside an extension's segment (requires of extensionNode.insert)
+lemma terminated-key-leaves-segment
+  vars k []byte, seg []byte
+  hyp  hex-key: len(k) > 0 && hexSuffix(k)
+  hyp  segment-has-no-terminator: forall j :: 0 <= j && j < len(seg) ==> seg[j] < 16
+  call m = prefixLen(k, seg)
+  concl leaves-or-passes: m < len(k) || m == len(seg)
 @*/
 
 /*@
@@ -565,4 +853,264 @@ func (tsm *trieStorageManager) takeSnapshot(snapshotEntry *snapshotsQueueEntry, 
   requires entry-set: snapshotEntry != nil
   requires snapshot-handles-set: forall k :: 0 <= k && k < len(tsm.snapshots) ==> tsm.snapshots[k] != nil
   ensures  releases-the-pruning-block-exactly-once: old(tsm.pruningBlockingOps) >= 1 ==> tsm.pruningBlockingOps == old(tsm.pruningBlockingOps) - 1
+@*/
+
+/*@
+// ---------------------------------------------------------------------------------------------------------------
+// C03 (and part (b) of C02) — encoding, hashing, storing and reloading ONE node.
+// * The marshalled bytes of a node are a function of its collapsed content (assumption on the Marshalizer, stated per
+//   node kind with the uninterpreted functions mLeaf / mExt); the stored encoding is these bytes followed by the kind tag.
+// * The database behind data.DBWriteCacher is a ghost map: dbCell(db, k)[0] is the byte string stored under key k.
+// * A node is stored under its hash field (encodeNodeAndCommitToDB) and a node loaded for hash h is the decoding of the
+//   bytes stored under h, labelled with h (getNodeFromDBAndDecode + setGivenHash in recreateFromDb / resolveCollapsed).
+spec fn mLeaf(m marshal.Marshalizer, k string, v string) string
+spec fn mExt(m marshal.Marshalizer, k string, c string) string
+spec fn leafBytes(ln *leafNode) string = mLeaf(ln.baseNode.marsh, str(ln.Key), str(ln.Value))
+spec fn extBytes(en *extensionNode) string = mExt(en.baseNode.marsh, str(en.Key), str(en.EncodedChild))
+spec fn kindTag(x node) int = typeIs(x, ptr_extensionNode) ? 0 : (typeIs(x, ptr_leafNode) ? 1 : 2)
+spec fn isNode(x node) bool = (typeIs(x, ptr_leafNode) && asLeaf(x) != nil && asLeaf(x).baseNode != nil) || (typeIs(x, ptr_extensionNode) && asExt(x) != nil && asExt(x).baseNode != nil) || (typeIs(x, ptr_branchNode) && asBranch(x) != nil && asBranch(x).baseNode != nil)
+
+spec fn dbCell(db data.DBWriteCacher, k string) []string      // no distinctness axioms: only same-key reasoning is used
+spec fn stored(db data.DBWriteCacher, k []byte) string = dbCell(db, str(k))[0]
+
+func (db data.DBWriteCacher) Put(key []byte, val []byte) (err error)
+  ensures stored: err == nil ==> dbCell(db, str(key))[0] == str(val)
+  assigns elems(dbCell(db, str(key)))
+
+func (db data.DBWriteCacher) Get(key []byte) (r []byte, err error)
+  ensures what-was-put: err == nil ==> str(r) == dbCell(db, str(key))[0]
+  assigns nothing
+
+extern func hex.EncodeToString(src []byte) (r string)
+  assigns nothing
+
+func (m marshal.Marshalizer) Marshal(obj interface{}) (b []byte, err error)
+  ensures  new-buffer: err == nil ==> fresh(b)
+  ensures  leaf-bytes-from-content: err == nil && typeIs(obj, ptr_leafNode) ==> str(b) == mLeaf(m, str(payload(obj, ptr_leafNode).Key), str(payload(obj, ptr_leafNode).Value))
+  ensures  ext-bytes-from-content: err == nil && typeIs(obj, ptr_extensionNode) ==> str(b) == mExt(m, str(payload(obj, ptr_extensionNode).Key), str(payload(obj, ptr_extensionNode).EncodedChild))
+  assigns  nothing
+
+// ---- encoding = marshalled content + kind tag
+func (ln *leafNode) getEncodedNode() (b []byte, err error)
+  requires ln.baseNode != nil && ln.baseNode.marsh != nil && allocated(ln.Key) && allocated(ln.Value)
+  ensures  empty-leaf-refused: ln.Value == nil ==> err != nil
+  ensures  tagged: err == nil ==> len(b) >= 1 && b[len(b)-1] == 1
+  ensures  content-then-tag: err == nil ==> str(b[:len(b)-1]) == leafBytes(ln)
+  ensures  new-buffer: err == nil ==> fresh(b)
+  assigns  nothing
+
+func (en *extensionNode) getEncodedNode() (b []byte, err error)
+  requires en.baseNode != nil && en.baseNode.marsh != nil && allocated(en.Key) && allocated(en.EncodedChild)
+  ensures  empty-extension-refused: en.child == nil && len(en.EncodedChild) == 0 ==> err != nil
+  ensures  tagged: err == nil ==> len(b) >= 1 && b[len(b)-1] == 0
+  ensures  content-then-tag: err == nil ==> str(b[:len(b)-1]) == extBytes(en)
+  ensures  new-buffer: err == nil ==> fresh(b)
+  assigns  nothing
+
+func (bn *branchNode) getEncodedNode() (b []byte, err error)
+  requires inv(bn) && bn.baseNode != nil && bn.baseNode.marsh != nil
+  ensures  tagged: err == nil ==> len(b) >= 1 && b[len(b)-1] == 2
+  ensures  new-buffer: err == nil ==> fresh(b)
+  assigns  nothing
+
+func (nd trie.node) getEncodedNode() (b []byte, err error)
+  ensures  tagged-with-kind: err == nil ==> len(b) >= 1 && b[len(b)-1] == kindTag(nd)
+  ensures  leaf-content-then-tag: err == nil && typeIs(nd, ptr_leafNode) ==> str(b[:len(b)-1]) == leafBytes(asLeaf(nd))
+  ensures  ext-content-then-tag: err == nil && typeIs(nd, ptr_extensionNode) ==> str(b[:len(b)-1]) == extBytes(asExt(nd))
+  assigns  nothing
+
+// ---- hashing
+func encodeNodeAndGetHash(n node) (hash []byte, err error)
+  requires n != nil
+  requires hasher-set: n.getHasher() != nil
+  ensures  digest: err == nil ==> len(hash) > 0
+  ensures  leaf-hash-of-own-encoding: err == nil && typeIs(n, ptr_leafNode) ==> (exists e []byte :: len(e) >= 1 && e[len(e)-1] == 1 && str(e[:len(e)-1]) == leafBytes(asLeaf(n)) && str(hash) == str(n.getHasher().Compute(str(e))))
+  assigns  nothing
+
+func (nd trie.node) setHash() (err error)
+  ensures  hash-present: err == nil ==> hashField(nd) != nil
+  ensures  cached-hash-kept: old(hashField(nd)) != nil ==> hashField(nd) == old(hashField(nd))
+  ensures  source-bytes-kept: str(encOf(nd)) == old(str(encOf(nd)))      // hashing never writes into an existing byte array
+  ensures  dirty-flags-kept: forall b *baseNode :: !fresh(b) ==> b.dirty == old(b.dirty)
+  ensures  leaf-base-kept: forall l *leafNode :: !fresh(l) ==> l.baseNode == old(l.baseNode)
+
+func (nd trie.node) getCollapsed() (c node, err error)
+  ensures  same-kind: err == nil ==> c != nil && kindTag(c) == kindTag(nd) && isNode(c)
+  ensures  leaf-is-its-own-collapsed-form: err == nil && typeIs(nd, ptr_leafNode) ==> c == nd
+  ensures  receiver-hash-kept: hashField(nd) == old(hashField(nd))
+  ensures  dirty-flags-kept: forall b *baseNode :: !fresh(b) ==> b.dirty == old(b.dirty)
+  ensures  leaf-base-kept: forall l *leafNode :: !fresh(l) ==> l.baseNode == old(l.baseNode)
+
+// the key a node is stored under: the cached hash when there is one (never recomputed), else the hash setHash computes
+// (view C03: the C10 block above holds the trusted contract of this function in the snapshot vocabulary)
+viewfunc C03 computeAndSetNodeHash(n node) (key []byte, err error)
+  requires n != nil
+  ensures  key-is-the-hash-field: err == nil ==> key == hashField(n)
+  ensures  cached-hash-is-not-recomputed: old(len(hashField(n))) != 0 ==> err == nil && key == old(hashField(n))
+  ensures  dirty-flags-kept: forall b *baseNode :: !fresh(b) ==> b.dirty == old(b.dirty)
+  ensures  leaf-base-kept: forall l *leafNode :: !fresh(l) ==> l.baseNode == old(l.baseNode)
+
+// one node is written: under its hash field, the encoding of its collapsed form (kind tag = kind of the node); the number
+// of bytes written is returned
+// (view C03, as above)
+viewfunc C03 encodeNodeAndCommitToDB(n node, db data.DBWriteCacher) (r int, err error)
+  requires n != nil && db != nil
+  ensures  stored-under-its-hash: err == nil ==> r == len(stored(db, hashField(n))) && r >= 1
+  ensures  stored-kind: err == nil ==> stored(db, hashField(n))[r-1] == kindTag(n)
+  ensures  dirty-flags-kept: forall b *baseNode :: !fresh(b) ==> b.dirty == old(b.dirty)
+  ensures  leaf-base-kept: forall l *leafNode :: !fresh(l) ==> l.baseNode == old(l.baseNode)
+
+// ---- loading: the node returned for hash h is the decoding of the bytes stored under h
+func getNodeFromDBAndDecode(n []byte, db data.DBWriteCacher, marshalizer marshal.Marshalizer, hasher hashing.Hasher) (r node, err error)
+  requires db != nil && marshalizer != nil
+  ensures  decoded-from-what-is-stored-under-n: err == nil ==> r != nil && str(encOf(r)) == stored(db, n) && r.getHasher() == hasher
+  ensures  kind-from-stored-tag: err == nil ==> len(stored(db, n)) >= 1 && stored(db, n)[len(stored(db, n))-1] == kindTag(r) && (typeIs(r, ptr_leafNode) || typeIs(r, ptr_extensionNode) || typeIs(r, ptr_branchNode))
+  assigns  nothing
+
+func (nd trie.node) setGivenHash(hash []byte)
+  ensures  hashField(nd) == hash
+  assigns  asLeaf(nd).baseNode.hash, asExt(nd).baseNode.hash, asBranch(nd).baseNode.hash
+
+func emptyTrie(root []byte) (r bool)
+  ensures  empty-root-or-empty-trie-hash: r <==> (len(root) == 0 || bytesEq(root, EmptyTrieHash))
+  assigns  nothing
+
+func NewTrie(trieStorage data.StorageManager, msh marshal.Marshalizer, hsh hashing.Hasher, maxTrieLevelInMemory uint) (tr *patriciaMerkleTrie, err error)
+  trusted      // make(chan struct{}) is outside the verifier's subset; the body is a field-by-field constructor
+  ensures  refused: err == nil <==> (!isNil(trieStorage) && !isNil(msh) && !isNil(hsh) && maxTrieLevelInMemory != 0)
+  ensures  empty: err == nil ==> fresh(tr) && tr.root == nil && tr.trieStorage == trieStorage && tr.marshalizer == msh && tr.hasher == hsh && tr.maxTrieLevelInMemory == maxTrieLevelInMemory
+  assigns  nothing
+
+// the recreated trie has as root the decoding of what is stored under rootHash, labelled with rootHash (not re-hashed),
+// and the collaborators / in-memory depth of the original
+func (tr *patriciaMerkleTrie) recreateFromDb(rootHash []byte, db data.DBWriteCacher, tsm data.StorageManager) (newTr *patriciaMerkleTrie, newRoot snapshotNode, err error)
+  requires db != nil && tr.marshalizer != nil
+  ensures  root-decoded-from-storage: err == nil ==> newTr.root != nil && str(encOf(newTr.root)) == stored(db, rootHash) && hashField(newTr.root) == rootHash
+  ensures  receiver-kept: tr.marshalizer == old(tr.marshalizer) && tr.hasher == old(tr.hasher) && tr.maxTrieLevelInMemory == old(tr.maxTrieLevelInMemory) && tr.trieStorage == old(tr.trieStorage)
+  ensures  same-collaborators: err == nil ==> fresh(newTr) && newTr.marshalizer == old(tr.marshalizer) && newTr.hasher == old(tr.hasher) && newTr.maxTrieLevelInMemory == old(tr.maxTrieLevelInMemory) && newTr.trieStorage == tsm
+
+// ---- commit of a leaf: a dirty leaf is written under its hash and becomes clean; a clean leaf is not written again
+func (ln *leafNode) commitDirty(level byte, maxTrieLevelInMemory uint, originDb data.DBWriteCacher, targetDb data.DBWriteCacher) (err error)
+  requires ln.baseNode != nil && targetDb != nil
+  ensures  clean-after-commit: err == nil ==> !ln.baseNode.dirty
+  ensures  written-under-its-hash: err == nil && old(ln.baseNode.dirty) ==> len(stored(targetDb, ln.baseNode.hash)) >= 1 && stored(targetDb, ln.baseNode.hash)[len(stored(targetDb, ln.baseNode.hash))-1] == 1
+
+// ---- loading a child whose hash is held: the child is the decoding of what is stored under that hash, labelled with it
+func (en *extensionNode) resolveCollapsed(pos byte, db data.DBWriteCacher) (err error)
+  requires en.baseNode != nil && db != nil && en.baseNode.marsh != nil
+  ensures  child-decoded-from-storage: err == nil ==> en.child != nil && hashField(en.child) == en.EncodedChild && str(encOf(en.child)) == stored(db, en.EncodedChild)
+  ensures  content-kept: en.Key == old(en.Key) && en.EncodedChild == old(en.EncodedChild)
+
+func (bn *branchNode) resolveCollapsed(pos byte, db data.DBWriteCacher) (err error)
+  requires inv(bn) && bn.baseNode != nil && db != nil && bn.baseNode.marsh != nil
+  ensures  child-decoded-from-storage: err == nil && len(old(bn.EncodedChildren[pos])) != 0 ==> bn.children[pos] != nil && hashField(bn.children[pos]) == old(bn.EncodedChildren[pos]) && str(encOf(bn.children[pos])) == stored(db, old(bn.EncodedChildren[pos]))
+  ensures  bad-position-refused: pos >= 17 ==> err != nil
+
+func (s data.StorageManager) Database() (db data.DBWriteCacher)
+  pure
+
+// ---- Recreate
+func (tr *patriciaMerkleTrie) recreateFromMainDb(rootHash []byte) (newTr *patriciaMerkleTrie)
+  requires tr.trieStorage != nil && tr.trieStorage.Database() != nil && tr.marshalizer != nil
+  ensures  root-decoded-from-storage: newTr != nil ==> newTr.root != nil && str(encOf(newTr.root)) == stored(old(tr.trieStorage).Database(), rootHash) && hashField(newTr.root) == rootHash
+  ensures  receiver-kept: tr.marshalizer == old(tr.marshalizer) && tr.hasher == old(tr.hasher) && tr.maxTrieLevelInMemory == old(tr.maxTrieLevelInMemory) && tr.trieStorage == old(tr.trieStorage)
+  ensures  same-collaborators: newTr != nil ==> newTr.marshalizer == old(tr.marshalizer) && newTr.hasher == old(tr.hasher) && newTr.maxTrieLevelInMemory == old(tr.maxTrieLevelInMemory) && newTr.trieStorage == old(tr.trieStorage)
+
+func (tr *patriciaMerkleTrie) recreateFromSnapshotDb(rootHash []byte) (newTr *patriciaMerkleTrie, err error)
+  trusted      // `defer db.DecreaseNumReferences()` after an early return (conditional defer) is outside the subset
+  ensures  same-collaborators: err == nil ==> newTr != nil && newTr.root != nil && hashField(newTr.root) == rootHash && newTr.marshalizer == old(tr.marshalizer) && newTr.hasher == old(tr.hasher) && newTr.maxTrieLevelInMemory == old(tr.maxTrieLevelInMemory)
+
+// an empty root (no bytes, or the fixed empty-trie hash) gives an empty trie; any other root gives a trie whose root node is
+// labelled with exactly that hash, with the collaborators and the in-memory depth of the original
+func (tr *patriciaMerkleTrie) recreate(root []byte) (newTr *patriciaMerkleTrie, err error)
+  requires tr.trieStorage != nil && tr.trieStorage.Database() != nil && tr.marshalizer != nil
+  ensures  empty-root-gives-empty-trie: err == nil && old(len(root) == 0 || bytesEq(root, EmptyTrieHash)) ==> newTr.root == nil
+  ensures  root-labelled-with-requested-hash: err == nil && !old(len(root) == 0 || bytesEq(root, EmptyTrieHash)) ==> newTr.root != nil && hashField(newTr.root) == root
+  ensures  same-collaborators: err == nil ==> newTr != nil && newTr.marshalizer == old(tr.marshalizer) && newTr.hasher == old(tr.hasher) && newTr.maxTrieLevelInMemory == old(tr.maxTrieLevelInMemory)
+@*/
+
+/*@
+// ---------------------------------------------------------------------------------------------------------------
+// C05 — trie synchronisation: which node is accepted for which hash, under which key it is written, which hashes are
+// asked for next, and when syncing reports completion.
+// * An intercepted node carries the hash FIELD of the node decoded from the received bytes (set by setHash on that node;
+//   it is the hash of the node's re-encoding, not of the received buffer itself).
+// * getNodeFromStorage(h) serves either an item the interceptor cache holds under key h (ASSUMPTION "cache contract":
+//   the cache hands out, under key k, only intercepted nodes whose own hash is k) or the decoding of what the local
+//   database holds under h. The code never compares the served node's hash with h.
+// * Every accepted node is written by encodeNodeAndCommitToDB (C03 block): under its own hash field.
+// * loadChildren asks only for hashes held by the node itself.
+// * checkIsSyncedWhileProcessingMissingAndExisting reports completion only when both work lists are empty.
+
+struct InterceptedTrieNode
+  invariant own-hash: node != nil ==> hash == hashField(node)
+
+func (nd trie.node) setDirty(dirty bool)
+  assigns  asLeaf(nd).baseNode.dirty, asExt(nd).baseNode.dirty, asBranch(nd).baseNode.dirty
+
+func NewInterceptedTrieNode(buff []byte, marshalizer marshal.Marshalizer, hasher hashing.Hasher) (r *InterceptedTrieNode, err error)
+  ensures  empty-buffer-refused: len(buff) == 0 ==> err != nil
+  ensures  node-decoded-from-the-buffer: err == nil ==> r != nil && r.node != nil && encOf(r.node) == buff && r.serializedNode == buff
+  ensures  advertised-hash-is-the-nodes-own: err == nil ==> r.hash == hashField(r.node) && r.hash != nil
+
+func (inTn *InterceptedTrieNode) GetSerialized() (r []byte)
+  ensures  r == inTn.serializedNode
+  assigns  nothing
+
+// the node inside an intercepted item is used as it is; an item without node is decoded from its bytes and hashed
+func trieNode(data interface{}, marshalizer marshal.Marshalizer, hasher hashing.Hasher) (r node, err error)
+  requires marshalizer != nil
+  requires no-typed-nil-item: typeIs(data, ptr_InterceptedTrieNode) ==> payload(data, ptr_InterceptedTrieNode) != nil
+  ensures  only-intercepted-trie-nodes: !typeIs(data, ptr_InterceptedTrieNode) ==> err != nil
+  ensures  carried-node-as-it-is: typeIs(data, ptr_InterceptedTrieNode) && old(payload(data, ptr_InterceptedTrieNode).node) != nil ==> err == nil && r == old(payload(data, ptr_InterceptedTrieNode).node) && hashField(r) == old(hashField(payload(data, ptr_InterceptedTrieNode).node)) && str(hashField(r)) == old(str(hashField(payload(data, ptr_InterceptedTrieNode).node)))
+  ensures  otherwise-decoded-from-its-bytes: err == nil && typeIs(data, ptr_InterceptedTrieNode) && old(payload(data, ptr_InterceptedTrieNode).node) == nil ==> r != nil && encOf(r) == old(payload(data, ptr_InterceptedTrieNode).serializedNode) && hashField(r) != nil
+
+// ASSUMPTION (cache contract): the interceptor stores an item under its own Hash(); items satisfy their invariant
+func (c storage.Cacher) Get(key []byte) (value interface{}, ok bool)
+  ensures  keyed-by-own-hash: ok && typeIs(value, ptr_InterceptedTrieNode) ==> payload(value, ptr_InterceptedTrieNode) != nil && payload(value, ptr_InterceptedTrieNode).node != nil && inv(payload(value, ptr_InterceptedTrieNode)) && str(payload(value, ptr_InterceptedTrieNode).hash) == str(key)
+  assigns  nothing
+
+func (c storage.Cacher) Remove(key []byte)
+  assigns  nothing
+
+// the node served for `hash`: an intercepted node advertised under exactly that hash, or the decoding of what the local
+// database held under that hash on entry
+func getNodeFromStorage(hash []byte, interceptedNodesCacher storage.Cacher, db data.DBWriteCacher, marshalizer marshal.Marshalizer, hasher hashing.Hasher) (r node, err error)
+  requires interceptedNodesCacher != nil && db != nil && marshalizer != nil
+  ensures  served-node: err == nil ==> r != nil
+  ensures  only-for-its-own-hash-or-from-local-storage: err == nil ==> str(hashField(r)) == old(str(hash)) || str(encOf(r)) == old(stored(db, hash))
+
+// ---- which hashes a node asks for
+func (ln *leafNode) loadChildren(getNode func([]byte) (node, error)) (missing [][]byte, nodes []node, err error)
+  ensures  a-leaf-asks-for-nothing: missing == nil && nodes == nil && err == nil
+  assigns  nothing
+
+func (en *extensionNode) loadChildren(getNode func([]byte) (node, error)) (missing [][]byte, nodes []node, err error)
+  ensures  asks-only-for-its-child-hash: err == nil ==> len(missing) <= 1 && (len(missing) == 1 ==> missing[0] == en.EncodedChild && len(nodes) == 0)
+  ensures  or-holds-the-child: err == nil && len(missing) == 0 ==> len(nodes) == 1 && nodes[0] == en.child
+  ensures  no-child-hash-refused: old(en.EncodedChild) == nil ==> err != nil
+
+// ---- completion
+func (rh trie.RequestHandler) RequestTrieNodes(destShardID uint32, hashes [][]byte, topic string)
+  assigns  nothing
+
+func (s data.SyncStatisticsHandler) SetNumMissing(rootHash []byte, value int)
+  assigns  nothing
+
+func (d *doubleListTrieSyncer) request(hashes [][]byte)
+  requires d.requestHandler != nil && d.trieSyncStatistics != nil
+  assigns  nothing
+
+func (d *doubleListTrieSyncer) processMissingAndExisting() (err error)
+  trusted      // two loops over string-keyed maps that are mutated while ranged over; no per-key contract is expressible
+  ensures  collaborators-kept: d.requestHandler == old(d.requestHandler) && d.trieSyncStatistics == old(d.trieSyncStatistics)
+
+// completion is reported only when no hash is missing and no received node is waiting to be written
+func (d *doubleListTrieSyncer) checkIsSyncedWhileProcessingMissingAndExisting() (synced bool, err error)
+  requires d.requestHandler != nil && d.trieSyncStatistics != nil
+  ensures  complete-means-both-lists-empty: synced ==> err == nil && len(d.missingHashes) == 0 && len(d.existingNodes) == 0
+  ensures  anything-missing-is-requested-and-not-complete: err == nil && len(d.missingHashes) > 0 ==> !synced
+
+loop 1
+  invariant slice-grows: len(marginSlice) >= 0
 @*/
